@@ -57,10 +57,11 @@ type authCall struct {
 }
 
 type env struct {
-	s     *Spec
-	log   *simfw.Log
-	res   *simfw.Result
-	party string
+	sharedIn *openapi3filter.ResponseValidationInput // response leg with reuse_input: the one input value all responses go through
+	s        *Spec
+	log      *simfw.Log
+	res      *simfw.Result
+	party    string
 }
 
 func (e *env) options(v ValOpts, auth openapi3filter.AuthenticationFunc) *openapi3filter.Options {
@@ -183,6 +184,7 @@ func (Sim) Run(raw json.RawMessage, prop string, keep bool) (res simfw.Result) {
 		res.Inconcl = "world: " + simfw.Trunc(err.Error(), 60)
 		return
 	}
+	world.PatchSecurity(s.Doc.SecOp)
 	if s.Leg == "response" {
 		// a history of responses over one document: all validated first, bodies read afterwards
 		var backs []func()
@@ -194,6 +196,9 @@ func (Sim) Run(raw json.RawMessage, prop string, keep bool) (res simfw.Result) {
 			log.Add("sim", "next-response", fmt.Sprint(i+2), "")
 			backs = append(backs, e.response(world, docBytes, more, false))
 			res.Probe("resp-history")
+		}
+		if s.ReuseInput && len(backs) > 1 {
+			backs = backs[len(backs)-1:] // one input value: only the last response's body is there to read back
 		}
 		for _, i := range readOrder(len(backs), s.ReadReverse) {
 			backs[i]()
@@ -259,6 +264,7 @@ func (e *env) request(world *World, docBytes []byte, q ReqSpec, again bool) (han
 		res.Inconcl = "neutral world: " + err.Error()
 		return
 	}
+	neutralWorld.PatchSecurity(s.Doc.SecOp)
 	var nCalls []authCall
 	nAuth := func(_ context.Context, in *openapi3filter.AuthenticationInput) error {
 		nCalls = append(nCalls, authCall{in.SecuritySchemeName, strings.Join(in.Scopes, ",")})
@@ -740,6 +746,7 @@ func (e *env) checkIdempotent(docBytes []byte, q ReqSpec, after snapshot, final 
 	if err != nil {
 		return
 	}
+	w.PatchSecurity(e.s.Doc.SecOp)
 	req, _ := http.NewRequest("POST", "http://sim.test/thing", bytes.NewReader(final))
 	req.Host = "sim.test"
 	req.URL.Scheme, req.URL.Host = "", ""
@@ -851,6 +858,16 @@ func (e *env) response(world *World, docBytes []byte, p RespSpec, again bool) (r
 	if err != nil {
 		res.Inconcl = "route: " + err.Error()
 		return
+	}
+	if s.ReuseInput && !again {
+		// the caller keeps one input value and assigns the next response to it
+		if e.sharedIn == nil {
+			e.sharedIn = in
+		} else {
+			e.sharedIn.Status, e.sharedIn.Header, e.sharedIn.Body = in.Status, in.Header, in.Body
+			in = e.sharedIn
+			res.Probe("resp-input-reused")
+		}
 	}
 	var verr error
 	panicked := false
